@@ -19,7 +19,8 @@ cargo test --offline -p $CRATE $FEATURES --test seed_demo_$N > /tmp/sc/$P-$N.unc
 git apply $SRC/patch-$N.diff || { echo "patch does not apply"; cd /; git -C /repo worktree remove --force $W >/dev/null 2>&1; exit 8; }
 cargo test --offline -p $CRATE $FEATURES --test seed_demo_$N > /tmp/sc/$P-$N.patched.log 2>&1; R1=$?
 rm -f $W/$CRATE/tests/seed_demo_$N.$EXT
-cargo test --offline -p $CRATE $FEATURES > /tmp/sc/$P-$N.suite.log 2>&1; R2=$?
+# the existing suite runs the way the repository runs it (SUITEFEATURES, default: same flags as the demo)
+cargo test --offline -p $CRATE ${SUITEFEATURES-$FEATURES} > /tmp/sc/$P-$N.suite.log 2>&1; R2=$?
 cd /
 git -C /repo worktree remove --force $W >/dev/null 2>&1
 echo "seed $P-$N: demo unchanged rc=$R0 (want 0), demo patched rc=$R1 (want !=0), crate suite with patch rc=$R2 (want 0)"
